@@ -179,8 +179,9 @@ def main():
         "extra": {k: v for k, v in extra.items() if k != "violations"},
         "notes": notes, "build_s": round(build_s, 1), "impl_s": round(impl_s, 1),
     }
-    core.write_evidence(pid, args.tier, seed, coverage, time.time() - t0, len(violations),
-                        getattr(mod, "ASSUMPTIONS", []))
+    if not args.replay:       # a replay is a diagnostic run of one input: it leaves the evidence of the last full run alone
+        core.write_evidence(pid, args.tier, seed, coverage, time.time() - t0, len(violations),
+                            getattr(mod, "ASSUMPTIONS", []))
     for line in known_lines:
         print(line)
     for p, suffix in violations:
